@@ -271,6 +271,173 @@ func VerifGetput_MutableGet() {
 	verifReach("end")
 }
 
+// getput.Put against two remote nodes: the get traversal (replies with or without token, with a value
+// that verifies or not, seq present or absent), then the put queries to the closest set, which the
+// remote nodes answer or let time out; optionally the caller cancels. Put returns, seqToPut is asked
+// once with the highest verified sequence number seen (0 if none), every put datagram goes to a node
+// that answered this traversal and carries the item seqToPut returned and - where that node supplied
+// a token - that token; nothing is left pending or blocked (engine verdict).
+func VerifGetput_Put() {
+	remotes := []*net.UDPAddr{{IP: net.IP{10, 7, 0, 1}, Port: 6001}, {IP: net.IP{10, 7, 0, 2}, Port: 6002}}
+	s, sock := verifGPServer(func() ([]dht.Addr, error) {
+		return []dht.Addr{dht.NewAddr(remotes[0]), dht.NewAddr(remotes[1])}, nil
+	})
+	var k [32]byte
+	verifFill(k[:])
+	var salt []byte
+	target := krpc.ID(sha1.Sum(append(append([]byte{}, k[:]...), salt...)))
+	type reply struct {
+		has, seqOK, token bool
+		seq               int64
+		v                 []byte
+		sig               [64]byte
+	}
+	var rs [2]reply
+	for i := range rs {
+		r := &rs[i]
+		r.has = verifNondetBool()
+		if !r.has {
+			continue
+		}
+		r.seqOK = verifNondetBool()
+		r.token = verifNondetBool()
+		r.seq = []int64{3, 9}[verifChoice(0, 1)]
+		r.v = verifGPBenc([]byte{byte('a' + i)})
+		// SHA-1 collision freeness: the 3-byte value does not hash to the target derived from the key
+		verifAssume(krpc.ID(sha1.Sum(r.v)) != target)
+		verifFill(r.sig[:])
+	}
+	valid := func(r reply) bool {
+		return r.has && r.seqOK && ed25519.Verify(k[:], verifGPSigned(salt, r.seq, r.v), r.sig[:])
+	}
+	var newSig [64]byte
+	verifFill(newSig[:])
+	asked := 0
+	var askedSeq int64
+	ctx, cancel := context.WithCancel(context.Background())
+	defer cancel()
+	var perr error
+	done := false
+	go func() {
+		_, perr = Put(ctx, target, s, salt, func(seq int64) bep44.Put {
+			asked++
+			askedSeq = seq
+			// the caller signs the new version
+			verifAssume(ed25519.Verify(k[:], verifGPSigned(salt, seq+1, verifGPBenc([]byte("nv"))), newSig[:]))
+			return bep44.Put{V: "nv", K: &k, Salt: salt, Sig: newSig, Seq: seq + 1}
+		})
+		done = true
+	}()
+	verifQuiesce()
+	answerPuts := verifNondetBool()
+	cancelAt := verifChoice(-1, 1) // -1: never; else after that many answered datagrams
+	answered := 0
+	handled := 0
+	gotReply := [2]bool{}
+	for step := 0; step < 10 && !done; step++ {
+		if cancelAt == handled {
+			cancel()
+			verifQuiesce()
+			cancelAt = -1
+			continue
+		}
+		progressed := false
+		for _, w := range sock.sent[answered:] {
+			answered++
+			if !w.ok {
+				continue
+			}
+			i := 0
+			if verifGPSame(w.addr, remotes[1]) {
+				i = 1
+			}
+			r := rs[i]
+			if w.msg.Q == "get" {
+				if !r.has {
+					continue
+				}
+				ret := &krpc.Return{ID: krpc.ID{0x11, byte(i + 1)}}
+				ret.K, ret.V, ret.Sig = k, bencode.Bytes(r.v), r.sig
+				if r.seqOK {
+					sq := r.seq
+					ret.Seq = &sq
+				}
+				if r.token {
+					t := "tk" + strconv.Itoa(i)
+					ret.Token = &t
+				}
+				gotReply[i] = true
+				handled++
+				sock.deliver(krpc.Msg{Y: "r", T: w.msg.T, R: ret}, w.addr)
+				progressed = true
+				break
+			}
+			if w.msg.Q == "put" && answerPuts {
+				handled++
+				sock.deliver(krpc.Msg{Y: "r", T: w.msg.T, R: &krpc.Return{ID: krpc.ID{0x11, byte(i + 1)}}}, w.addr)
+				progressed = true
+				break
+			}
+		}
+		if !progressed {
+			if verifFireTimers() == 0 {
+				break
+			}
+			verifQuiesce()
+		}
+	}
+	for i := 0; i < 6 && !done; i++ {
+		verifFireTimers()
+		verifQuiesce()
+	}
+	verifAssert(done, "C14: Put returns")
+	_ = perr
+	verifAssert(asked <= 1, "C12: the item to put is asked for once")
+	if asked == 1 {
+		best := int64(0)
+		for i, r := range rs {
+			if valid(r) && gotReply[i] && r.seq > best {
+				best = r.seq
+			}
+		}
+		// (a reply may be missed when the caller cancels first: then the highest seen so far is lower)
+		seen := false
+		if askedSeq == 0 {
+			seen = true
+		}
+		for i, r := range rs {
+			if valid(r) && gotReply[i] && r.seq == askedSeq {
+				seen = true
+			}
+		}
+		verifAssert(seen, "C12: the sequence number handed to the putter is 0 or that of a verified value received in this traversal")
+		if ctx.Err() == nil {
+			verifAssert(askedSeq == best, "C12: ... and, when the traversal ran to its end, the highest of them")
+		}
+	}
+	for _, w := range sock.sent {
+		if !w.ok || w.msg.Q != "put" {
+			continue
+		}
+		i := 0
+		if verifGPSame(w.addr, remotes[1]) {
+			i = 1
+		}
+		verifAssert(gotReply[i], "C14/C12: a put goes only to a node that answered this traversal")
+		a := w.msg.A
+		verifAssert(a != nil && a.K == k && a.Seq != nil && *a.Seq == askedSeq+1 && a.Sig == newSig, "C12: the put carries the item the caller supplied")
+		if rs[i].token {
+			verifAssert(a.Token == "tk"+strconv.Itoa(i), "C10: a node that supplied a write token is handed back exactly that token")
+		}
+		verifReach("put")
+	}
+	for i := 0; i < 4 && verifFireTimers() > 0; i++ {
+		verifQuiesce()
+	}
+	verifAssert(s.Stats().OutstandingTransactions == 0, "C14: no pending transaction is left behind")
+	verifReach("end")
+}
+
 func verifGPSame(a net.Addr, b *net.UDPAddr) bool {
 	u, ok := a.(*net.UDPAddr)
 	return ok && u.Port == b.Port
